@@ -189,6 +189,37 @@ pub fn scen_iterate(m: &Model, setup: &Setup, limit: usize, out: &mut Out) {
     // (nothing lost, nothing repeated).
     let mut br = Rng::new(setup.style_seed ^ 0xB0D6E7);
     let renewable = br.chance(1, 4);
+    // On a fifth of the cases the solver has answered an assumption query before the enumeration
+    // starts (nothing of it may be retained: the enumeration is over the model alone).
+    if br.chance(1, 5) && !m.vars.is_empty() {
+        let n = 1 + br.usize(2);
+        let atoms: Vec<Atom> = (0..n)
+            .map(|_| {
+                let x = br.usize(m.vars.len());
+                let vals = &m.vars[x].values;
+                let v = vals[br.usize(vals.len())];
+                match br.below(4) {
+                    0 => Atom::Ge(x, v),
+                    1 => Atom::Le(x, v),
+                    2 => Atom::Ne(x, v),
+                    _ => Atom::Eq(x, v),
+                }
+            })
+            .collect();
+        let preds: Vec<Predicate> = atoms.iter().map(|a| built.vars.pred(a)).collect();
+        let mut t0 = StopAt::never();
+        let r0 = built.solver.satisfy_under_assumptions(&mut brancher, &mut t0, &preds);
+        out.meta(format!(
+            "assumption query before the enumeration {} -> {}",
+            fmt_atoms(&atoms),
+            match r0 {
+                SatisfactionResultUnderAssumptions::Satisfiable(_) => "sat",
+                SatisfactionResultUnderAssumptions::UnsatisfiableUnderAssumptions(_) => "unsat-under",
+                SatisfactionResultUnderAssumptions::Unsatisfiable => "unsat",
+                SatisfactionResultUnderAssumptions::Unknown => "unknown",
+            }
+        ));
+    }
     let mut term = StopAt::never();
     let armed = term.armed.clone();
     let since = term.since.clone();
@@ -470,6 +501,16 @@ pub fn gen_assumptions(r: &mut Rng, m: &Model) -> Vec<Atom> {
     }
     let n = r.usize(5);
     let mut v = vec![];
+    if r.chance(1, 8) && !m.vars.is_empty() {
+        // assumptions over one variable which are pairwise compatible but jointly contradictory on
+        // the declared domain: [x >= c], [x <= c], [x != c]
+        let x = r.usize(m.vars.len());
+        let d = &m.vars[x];
+        let c = d.values[r.usize(d.values.len())];
+        v.push(Atom::Ge(x, c));
+        v.push(Atom::Le(x, c));
+        v.push(Atom::Ne(x, c));
+    }
     for _ in 0..n {
         let x = r.usize(m.vars.len());
         let d = &m.vars[x];
@@ -1053,6 +1094,54 @@ pub fn scen_history(initial: &Model, ops: &[Op], setup: &Setup, out: &mut Out) {
             }
         }
     }
+    report_branch_log(&brancher, out);
+}
+
+/// see `mode_bigsearch`
+pub fn scen_bigsearch(m: &Model, setup: &Setup, k: usize, out: &mut Out) {
+    let solver = Solver::with_options(setup.opts.to_solver_options());
+    let mut built = build(solver, m, false, false, setup.style_seed);
+    if built.failed_at.is_some() {
+        out.push("bad bigsearch posting-failed");
+        return;
+    }
+    let mut brancher = make_brancher(&setup.bspec, &built.solver, &built.vars.ids);
+    let mut term = StopAt::never();
+    term.cap = term.cap.min(60_000);
+    let since = term.since.clone();
+    let mut found = 0;
+    let mut seen: std::collections::BTreeSet<Vec<i32>> = Default::default();
+    {
+        let mut it = built.solver.get_solution_iterator(&mut brancher, &mut term);
+        while found < k {
+            since.set(0);
+            match it.next_solution() {
+                IteratedSolution::Solution(sol, _, _) => match extract(sol.as_reference(), &built.vars) {
+                    Some(vs) => {
+                        found += 1;
+                        let in_dom = vs.iter().zip(m.vars.iter()).all(|(v, d)| d.values.contains(v));
+                        if !in_dom || !m.cons.iter().all(|c| c.sat(&vs)) {
+                            out.push(format!("bad bigsearch non-solution {}", fmt_vals(&vs).replace(' ', ",")));
+                        }
+                        if !seen.insert(vs) {
+                            out.push("bad bigsearch repeated-solution");
+                        }
+                    }
+                    None => {
+                        out.push("partial bigsearch");
+                        break;
+                    }
+                },
+                IteratedSolution::Finished | IteratedSolution::Unsatisfiable => break,
+                IteratedSolution::Unknown => {
+                    // the poll cap of the harness: a long search, not an observation about the solver
+                    out.meta("bigsearch: poll cap reached, case inconclusive");
+                    break;
+                }
+            }
+        }
+    }
+    out.push(format!("same bigsearch-solutions-found {} {}", found, found));
     report_branch_log(&brancher, out);
 }
 
